@@ -725,6 +725,9 @@ pub fn replay_bounded(unit: &str) -> Option<i32> {
         "b_c05_nested_enumerated" => run_grid(unit, contract_generate_nested_enumerated, limit),
         "b_c02_components_of_import" => run_grid(unit, contract_components_of_import, limit),
         "b_c02_components_of_placement" => run_grid(unit, contract_components_of_placement, limit),
+        "b_c03_member_tag_classes" => run_grid(unit, contract_member_tag_classes, limit),
+        "b_c02_parameterized_components" => run_grid(unit, contract_parameterized_components, limit),
+        "b_c14_large_numbers" => run_grid(unit, contract_enumerated_large_numbers, limit),
         "b_c02_nested_collections" => run_grid(unit, contract_generate_nested_collections, limit),
         "b_c03_tagged_assignment" => run_grid(unit, contract_generate_tagged_assignment, limit),
         "b_c06_literal_rendering" => run_grid(unit, contract_literal_rendering, limit),
@@ -1234,7 +1237,19 @@ pub fn contract_generate_component_bounds<C: Ctx>(cx: &mut C) {
         if !cx.assume(lo.is_some() || hi.is_some()) { return; }
         if !cx.assume(!size || matches!(lo, Some(0) | Some(3))) { return; }
         let range = SubtypeElements::ValueRange { min: lo.map(ASN1Value::Integer), max: hi.map(ASN1Value::Integer), extensible: ext };
-        let c = Constraint::Subtype(ElementSetSpecs { set: ElementOrSetOperation::Element(if size { SubtypeElements::SizeConstraint(Box::new(ElementOrSetOperation::Element(range))) } else { range }), extensible: false });
+        // how the bound is written: 0 as a range; 1 as a type inclusion `(Bound)` with `Bound ::= INTEGER (lo..hi)` already
+        // inlined by the linker; 2 as a union of the two ends inside SIZE: `SIZE (lo | hi)`
+        let form = cx.choose(3);
+        if !cx.assume(form != 1 || (!size && !by_reference)) { return; }
+        if !cx.assume(form != 2 || (size && lo.is_some() && hi.is_some())) { return; }
+        let elem = match form {
+            1 => SubtypeElements::ContainedSubtype { subtype: ASN1Type::Integer(Integer { constraints: vec![Constraint::Subtype(ElementSetSpecs { set: ElementOrSetOperation::Element(range.clone()), extensible: false })], distinguished_values: None }), extensible: false },
+            2 => SubtypeElements::SizeConstraint(Box::new(ElementOrSetOperation::SetOperation(SetOperation {
+                    base: SubtypeElements::SingleValue { value: ASN1Value::Integer(lo.unwrap()), extensible: false }, operator: SetOperator::Union,
+                    operant: Box::new(ElementOrSetOperation::Element(SubtypeElements::SingleValue { value: ASN1Value::Integer(hi.unwrap()), extensible: ext })) }))),
+            _ => if size { SubtypeElements::SizeConstraint(Box::new(ElementOrSetOperation::Element(range.clone()))) } else { range.clone() },
+        };
+        let c = Constraint::Subtype(ElementSetSpecs { set: ElementOrSetOperation::Element(elem), extensible: false });
         let ty = if by_reference { ASN1Type::ElsewhereDeclaredType(DeclarationElsewhere { parent: None, module: None, identifier: "MyType".into(), constraints: vec![c] }) }
                  else if size { ASN1Type::OctetString(OctetString { constraints: vec![c] }) }
                  else { ASN1Type::Integer(Integer { constraints: vec![c], distinguished_values: None }) };
@@ -1245,6 +1260,7 @@ pub fn contract_generate_component_bounds<C: Ctx>(cx: &mut C) {
         };
         let h = Rc::new(RefCell::new(ModuleHeader { name: "M".into(), module_identifier: None, encoding_reference_default: None, tagging_environment: TaggingEnvironment::Automatic, extensibility_environment: ExtensibilityEnvironment::Explicit, imports: vec![], exports: None }));
         let tld = ToplevelDefinition::Type(ToplevelTypeDefinition { comments: String::new(), tag: None, name: "T".into(), ty: outer, parameterization: None, module_header: Some(h) });
+        cx.note("constraint_form(0=range,1=type inclusion,2=SIZE(lo|hi))", form);
         cx.describe(|| format!("component_type={} in={} constraint=({}{}..{}{}{})", if by_reference { "MyType (type reference)" } else if size { "OCTET STRING" } else { "INTEGER" }, if in_choice { "CHOICE" } else { "SEQUENCE" },
             if size { "SIZE(" } else { "" }, lo.map_or("MIN".to_string(), |v| v.to_string()), hi.map_or("MAX".to_string(), |v| v.to_string()), if ext { ", ..." } else { "" }, if size { ")" } else { "" }));
         let mut backend = crate::generator::rasn::Rasn::default();
@@ -1260,6 +1276,12 @@ pub fn contract_generate_component_bounds<C: Ctx>(cx: &mut C) {
             vob!(cx, "C04.generate.component_size_annotation_is_the_constraint_range", fields.len() == 1 && fields[0].contains(&want));
         } else {
             vob!(cx, "C04.generate.component_value_annotation_is_the_constraint_range", fields.len() == 1 && fields[0].contains(&want));
+            if !by_reference && fields.len() == 1 {
+                // C06: the component's Rust type is chosen from that very range (sign included)
+                let want_ty = if ext || lo.is_none() || hi.is_none() { "Integer" } else if lo.unwrap() < 0 { "i8" } else { "u8" };
+                let got_ty = if in_choice { let t = fields[0].rsplit("f0 (").next().unwrap_or("").trim(); t.strip_suffix(')').unwrap_or(t).trim().to_string() } else { fields[0].rsplit("pub f0 :").next().unwrap_or("").trim().to_string() };
+                vob!(cx, "C06.component_path.type_is_chosen_from_the_folded_range", got_ty == want_ty);
+            }
         }
     }
     #[cfg(kani)]
@@ -2001,6 +2023,8 @@ pub fn contract_named_value_resolution<C: Ctx>(cx: &mut C) {
         }
         let d = denotes(&v);
         vob!(cx, "C07.named_value.named_number_of_the_governing_type_wins", if enumerated { d == "enum:Level.retries" } else { d == "int:1" });
+        // C06: the literal emitted for the DEFAULT is the governing type's own number (the other value need not fit it)
+        vob!(cx, "C06.named_value.default_literal_is_the_governing_types_number", if enumerated { d == "enum:Level.retries" } else { d == "int:1" });
     }
     #[cfg(kani)]
     { let _ = cx; }
@@ -2283,6 +2307,9 @@ pub fn contract_generate_tagged_assignment<C: Ctx>(cx: &mut C) {
         use crate::generator::Backend;
         use std::{cell::RefCell, rc::Rc};
         let env = any_tagenv(cx);
+        use crate::intermediate::constraints::*;
+        let range_c = |lo: i128, hi: i128| Constraint::Subtype(ElementSetSpecs { set: ElementOrSetOperation::Element(SubtypeElements::ValueRange { min: Some(ASN1Value::Integer(lo)), max: Some(ASN1Value::Integer(hi)), extensible: false }), extensible: false });
+        let size_c = |lo: i128, hi: i128| Constraint::Subtype(ElementSetSpecs { set: ElementOrSetOperation::Element(SubtypeElements::SizeConstraint(Box::new(ElementOrSetOperation::Element(if lo == hi { SubtypeElements::SingleValue { value: ASN1Value::Integer(lo), extensible: false } } else { SubtypeElements::ValueRange { min: Some(ASN1Value::Integer(lo)), max: Some(ASN1Value::Integer(hi)), extensible: false } })))), extensible: false });
         let kinds: Vec<(&str, ASN1Type)> = vec![
             ("NULL", ASN1Type::Null), ("BOOLEAN", ASN1Type::Boolean(Boolean { constraints: vec![] })), ("INTEGER", ASN1Type::Integer(Integer { constraints: vec![], distinguished_values: None })),
             ("OCTET STRING", ASN1Type::OctetString(OctetString { constraints: vec![] })), ("BIT STRING", ASN1Type::BitString(BitString { constraints: vec![], distinguished_values: None })),
@@ -2294,6 +2321,14 @@ pub fn contract_generate_tagged_assignment<C: Ctx>(cx: &mut C) {
             ("SET OF INTEGER", ASN1Type::SetOf(SequenceOrSetOf { constraints: vec![], element_type: Box::new(ASN1Type::Integer(Integer { constraints: vec![], distinguished_values: None })), element_tag: None, is_recursive: false })),
             ("SEQUENCE OF SEQUENCE { x NULL }", ASN1Type::SequenceOf(SequenceOrSetOf { constraints: vec![], element_type: Box::new(ASN1Type::Sequence(SequenceOrSet { components_of: vec![], extensible: None, constraints: vec![], members: vec![SequenceOrSetMember { name: "x".into(), tag: None, ty: ASN1Type::Null, optionality: Optionality::Required, is_recursive: false, constraints: vec![] }] })), element_tag: None, is_recursive: false })),
             ("SEQUENCE OF Other", ASN1Type::SequenceOf(SequenceOrSetOf { constraints: vec![], element_type: Box::new(ASN1Type::ElsewhereDeclaredType(DeclarationElsewhere { parent: None, module: None, identifier: "Other".into(), constraints: vec![] })), element_tag: None, is_recursive: false })),
+            // constrained forms take other branches of the generator (fixed-size strings, ranges)
+            ("OCTET STRING (SIZE(16))", ASN1Type::OctetString(OctetString { constraints: vec![size_c(16, 16)] })),
+            ("OCTET STRING (SIZE(1..4))", ASN1Type::OctetString(OctetString { constraints: vec![size_c(1, 4)] })),
+            ("BIT STRING (SIZE(8))", ASN1Type::BitString(BitString { constraints: vec![size_c(8, 8)], distinguished_values: None })),
+            ("BIT STRING (SIZE(1..4))", ASN1Type::BitString(BitString { constraints: vec![size_c(1, 4)], distinguished_values: None })),
+            ("INTEGER (0..5)", ASN1Type::Integer(Integer { constraints: vec![range_c(0, 5)], distinguished_values: None })),
+            ("IA5String (SIZE(2))", ASN1Type::CharacterString(CharacterString { constraints: vec![size_c(2, 2)], ty: CharacterStringType::IA5String })),
+            ("Other (0..5)", ASN1Type::ElsewhereDeclaredType(DeclarationElsewhere { parent: None, module: None, identifier: "Other".into(), constraints: vec![range_c(0, 5)] })),
         ];
         let (name, ty) = kinds[cx.choose(kinds.len())].clone();
         // type references whose Rust name differs from the ASN.1 name carry an identifier annotation next to the tag
@@ -2311,6 +2346,90 @@ pub fn contract_generate_tagged_assignment<C: Ctx>(cx: &mut C) {
             if env == TaggingEnvironment::Explicit { generated.contains(explicit_form) } else { generated.contains(implicit_form) && !generated.contains(explicit_form) });
         // the tag belongs to the assigned type alone: an anonymous element type hoisted out of it is not tagged
         vob!(cx, "C03.generate.tag_of_the_assignment_is_applied_to_that_type_only", generated.matches("application , 8").count() == 1);
+    }
+    #[cfg(kani)]
+    { let _ = cx; }
+}
+
+/// C03 — the tag of a component / alternative is rendered with ITS class, number and mode for every class
+/// (`Rasn::format_member_or_option` -> `format_tag`), also inside an anonymous nested type.
+pub fn contract_member_tag_classes<C: Ctx>(cx: &mut C) {
+    #[cfg(not(kani))]
+    {
+        use crate::intermediate::types::*;
+        use crate::generator::Backend;
+        use std::{cell::RefCell, rc::Rc};
+        let kind = cx.choose(3);
+        let nested = cx.any_bool();
+        let class = [TagClass::ContextSpecific, TagClass::Application, TagClass::Private, TagClass::Universal][cx.choose(4)];
+        let mode = any_tagenv(cx);   // the tag's resolved mode
+        let id = [0u64, 4, 30, 31, 200][cx.choose(5)];
+        let member_ty = [ASN1Type::Boolean(Boolean { constraints: vec![] }), ASN1Type::CharacterString(CharacterString { constraints: vec![], ty: CharacterStringType::UTF8String }), ASN1Type::ElsewhereDeclaredType(DeclarationElsewhere { parent: None, module: None, identifier: "Other".into(), constraints: vec![] })][cx.choose(3)].clone();
+        let tag = AsnTag { environment: mode, tag_class: class, id };
+        let wrap = |ty: ASN1Type, tag: Option<AsnTag>, name: &str| -> ASN1Type {
+            match kind {
+                2 => ASN1Type::Choice(Choice { extensible: None, constraints: vec![], options: vec![ChoiceOption { name: name.into(), tag, ty, constraints: vec![], is_recursive: false }] }),
+                k => { let s = SequenceOrSet { components_of: vec![], extensible: None, constraints: vec![], members: vec![SequenceOrSetMember { name: name.into(), tag, ty, optionality: Optionality::Required, is_recursive: false, constraints: vec![] }] }; if k == 1 { ASN1Type::Set(s) } else { ASN1Type::Sequence(s) } }
+            }
+        };
+        let ty = if nested { wrap(wrap(member_ty, Some(tag.clone()), "f0"), None, "outer") } else { wrap(member_ty, Some(tag.clone()), "f0") };
+        cx.describe(|| format!("{} {{ {}f0 [{class:?} {id}] ({mode:?}) <type> }}", ["SEQUENCE", "SET", "CHOICE"][kind], if nested { "outer <same kind> { " } else { "" }));
+        let h = Rc::new(RefCell::new(ModuleHeader { name: "M".into(), module_identifier: None, encoding_reference_default: None, tagging_environment: TaggingEnvironment::Explicit, extensibility_environment: ExtensibilityEnvironment::Explicit, imports: vec![], exports: None }));
+        let tld = ToplevelDefinition::Type(ToplevelTypeDefinition { comments: String::new(), tag: None, name: "T".into(), ty, parameterization: None, module_header: Some(h) });
+        let mut backend = crate::generator::rasn::Rasn::default();
+        let generated = match backend.generate_module(vec![tld]) { Ok(m) if m.warnings.is_empty() => m.generated.unwrap_or_default(), _ => { vob!(cx, "C03.generate.tagged_member_is_generated", false); return; } };
+        let cls = match class { TagClass::ContextSpecific => "context", TagClass::Application => "application", TagClass::Private => "private", TagClass::Universal => "universal" };
+        let want = if mode == TaggingEnvironment::Explicit { format!("tag (explicit ({cls} , {id}))") } else { format!("tag ({cls} , {id})") };
+        let holder = if nested { "TOuter" } else { "T" };
+        let field = item_of(&generated, holder).and_then(|(_, fs)| fs.into_iter().find(|f| f.contains("f0")));
+        vob!(cx, "C03.generate.member_tag_is_rendered_with_its_class_number_and_mode", matches!(&field, Some(f) if f.contains(&want) && (mode == TaggingEnvironment::Explicit || !f.contains("explicit"))));
+    }
+    #[cfg(kani)]
+    { let _ = cx; }
+}
+
+/// C02 — a parameterized type is instantiated with its actual parameter in EVERY component position: plain component,
+/// element of SEQUENCE OF / SET OF, alternative of a nested CHOICE, OPTIONAL (whole pipeline: resolve_parameters ->
+/// ASN1Type::link_elsewhere_declared).
+pub fn contract_parameterized_components<C: Ctx>(cx: &mut C) {
+    #[cfg(not(kani))]
+    {
+        let (actual, rust) = [("INTEGER", "Integer"), ("BOOLEAN", "bool"), ("Other", "Other")][cx.choose(3)];
+        let set = cx.any_bool();
+        let kw = if set { "SET" } else { "SEQUENCE" };
+        let src = format!("M DEFINITIONS AUTOMATIC TAGS ::= BEGIN Other ::= NULL Pair {{T}} ::= {kw} {{ first T, opt T OPTIONAL, list SEQUENCE OF T, bag SET OF T, alt CHOICE {{ one T, many SET OF T, more SEQUENCE OF T }} }} Inst ::= Pair {{ {actual} }} END");
+        cx.describe(|| src.clone());
+        let out = crate::Compiler::<crate::generator::rasn::Rasn, _>::new().add_asn_literal(&src).compile_to_string();
+        let Ok(res) = out else { vob!(cx, "C02.parameterized.compiles", false); return; };
+        let fields = item_of(&res.generated, "Inst").map(|(_, f)| f).unwrap_or_default();
+        let alts = item_of(&res.generated, "InstAlt").map(|(_, f)| f).unwrap_or_default();
+        let has = |fs: &Vec<String>, name: &str, ty: &str| fs.iter().any(|f| (f.contains(&format!("pub {name} : {ty}")) && f.trim_end().ends_with(ty)) || f.trim_end().ends_with(&format!("{name} ({ty})")));
+        vob!(cx, "C02.parameterized.every_component_position_gets_the_actual_parameter",
+            has(&fields, "first", rust) && has(&fields, "opt", &format!("Option < {rust} >")) && has(&fields, "list", &format!("SequenceOf < {rust} >")) && has(&fields, "bag", &format!("SetOf < {rust} >"))
+            && has(&alts, "one", rust) && has(&alts, "many", &format!("SetOf < {rust} >")) && has(&alts, "more", &format!("SequenceOf < {rust} >")));
+        vob!(cx, "C02.parameterized.no_dummy_parameter_survives", !res.generated.contains("< T >") && !res.generated.contains("(T)") && !res.generated.contains(": T ,"));
+    }
+    #[cfg(kani)]
+    { let _ = cx; }
+}
+
+/// C14 — explicit numbers of any magnitude the lexer accepts are kept exactly (whole pipeline): numbers around 2^31, 2^63,
+/// 2^64 and -2^63, next to identifier-only items.
+pub fn contract_enumerated_large_numbers<C: Ctx>(cx: &mut C) {
+    #[cfg(not(kani))]
+    {
+        const BIG: [i128; 8] = [2147483647, 2147483648, 9223372036854775807, 9223372036854775808, 18446744073709551615, -2147483649, -9223372036854775808, -9223372036854775809];
+        let a = BIG[cx.choose(8)];
+        let b = BIG[cx.choose(8)];
+        if !cx.assume(a != b) { return; }
+        let addition = cx.any_bool();
+        let src = format!("M DEFINITIONS AUTOMATIC TAGS ::= BEGIN E ::= ENUMERATED {{ low(-1), mid, big({a}){}other({b}), last }} END", if addition { ", ..., " } else { ", " });
+        cx.describe(|| src.clone());
+        let out = crate::Compiler::<crate::generator::rasn::Rasn, _>::new().add_asn_literal(&src).compile_to_string();
+        let Ok(res) = out else { vob!(cx, "C14.large_numbers.compiles", false); return; };
+        let Some((_, variants)) = item_of(&res.generated, "E") else { vob!(cx, "C14.large_numbers.compiles", false); return; };
+        let number_of = |name: &str| variants.iter().find_map(|v| { let d = match v.rfind(']') { Some(p) => v[p + 1..].trim(), None => v.trim() }; let mut p = d.split('='); if p.next().map(|n| n.trim()) == Some(name) { p.next().map(|n| n.replace(' ', "")) } else { None } });
+        vob!(cx, "C14.large_numbers.explicit_numbers_are_kept_exactly", number_of("big") == Some(a.to_string()) && number_of("other") == Some(b.to_string()) && number_of("low") == Some("-1".to_string()) && number_of("mid") == Some("0".to_string()));
     }
     #[cfg(kani)]
     { let _ = cx; }
@@ -2503,8 +2622,9 @@ pub fn contract_choice_and_set_parser<C: Ctx>(cx: &mut C) {
             let tagged = cx.any_bool();
             let optional = is_set && cx.any_bool();
             let name = format!("{}{}", if i < n_root { "r" } else { "x" }, i);
-            src.push_str(&format!("{name} {}BOOLEAN{}", if tagged { format!("[{}] ", 10 + i) } else { String::new() }, if optional { " OPTIONAL" } else { "" }));
-            want.push((name, if tagged { Some(10 + i as u64) } else { None }, optional));
+            // tag numbers descend in source order: any reordering "by tag" shows
+            src.push_str(&format!("{name} {}BOOLEAN{}", if tagged { format!("[{}] ", 20 - i) } else { String::new() }, if optional { " OPTIONAL" } else { "" }));
+            want.push((name, if tagged { Some(20 - i as u64) } else { None }, optional));
         }
         if marker && n_add == 0 { if !first { src.push_str(", "); } src.push_str("..."); }
         src.push_str(" }");
@@ -2519,6 +2639,9 @@ pub fn contract_choice_and_set_parser<C: Ctx>(cx: &mut C) {
             Some((items, ext)) => {
                 vob!(cx, "C02.choice_set_parser.items_in_source_order_with_tag_and_optional", items == want);
                 vob!(cx, "C05.choice_set_parser.marker_iff_extensible_and_index_is_root_count", ext == if marker { Some(n_root) } else { None });
+                // the items at and after the first-addition index are exactly the ones written after the marker
+                let after: Vec<&String> = items.iter().skip(ext.unwrap_or(usize::MAX)).map(|i| &i.0).collect();
+                vob!(cx, "C05.choice_set_parser.additions_are_exactly_the_items_written_after_the_marker", after.iter().all(|n| n.starts_with('x')) && after.len() == n_add);
             }
             None => { vob!(cx, "C02.choice_set_parser.parses", false); }
         }
@@ -2641,34 +2764,37 @@ pub fn contract_generate_assignment_bounds<C: Ctx>(cx: &mut C) {
         use crate::intermediate::types::*;
         use crate::generator::Backend;
         use std::{cell::RefCell, rc::Rc};
-        let kind = cx.choose(5); // 0 INTEGER value range, 1 OCTET STRING size, 2 BIT STRING size, 3 IA5String size, 4 SEQUENCE OF size
-        let lo = [Some(0i128), Some(2), None][cx.choose(3)];
+        let kind = cx.choose(7); // 0 INTEGER value range, 1 OCTET STRING size, 2 BIT STRING size, 3 IA5String size, 4 SEQUENCE OF size, 5 value range on a type reference, 6 negative value range on INTEGER
+        let lo = [Some(0i128), Some(2), None, Some(-3)][cx.choose(4)];
+        if !cx.assume(lo != Some(-3) || kind >= 5) { return; }
+        if !cx.assume(kind != 6 || lo == Some(-3)) { return; }
         let hi = [Some(2i128), Some(9), None][cx.choose(3)];
         if !cx.assume(match (lo, hi) { (Some(l), Some(h)) => l <= h, (None, None) => false, _ => true }) { return; }
-        if !cx.assume(kind == 0 || lo.is_some()) { return; }
+        if !cx.assume(kind == 0 || kind >= 5 || lo.is_some()) { return; }
         let ext = cx.any_bool();
         let range = SubtypeElements::ValueRange { min: lo.map(ASN1Value::Integer), max: hi.map(ASN1Value::Integer), extensible: ext };
-        let c = Constraint::Subtype(ElementSetSpecs { set: ElementOrSetOperation::Element(if kind == 0 { range } else { SubtypeElements::SizeConstraint(Box::new(ElementOrSetOperation::Element(range))) }), extensible: false });
+        let c = Constraint::Subtype(ElementSetSpecs { set: ElementOrSetOperation::Element(if kind == 0 || kind >= 5 { range } else { SubtypeElements::SizeConstraint(Box::new(ElementOrSetOperation::Element(range))) }), extensible: false });
         let ty = match kind {
-            0 => ASN1Type::Integer(Integer { constraints: vec![c], distinguished_values: None }),
+            0 | 6 => ASN1Type::Integer(Integer { constraints: vec![c], distinguished_values: None }),
+            5 => ASN1Type::ElsewhereDeclaredType(DeclarationElsewhere { parent: None, module: None, identifier: "Temp".into(), constraints: vec![c] }),
             1 => ASN1Type::OctetString(OctetString { constraints: vec![c] }),
             2 => ASN1Type::BitString(BitString { constraints: vec![c], distinguished_values: None }),
             3 => ASN1Type::CharacterString(CharacterString { constraints: vec![c], ty: CharacterStringType::IA5String }),
             _ => ASN1Type::SequenceOf(SequenceOrSetOf { constraints: vec![c], element_type: Box::new(ASN1Type::Boolean(Boolean { constraints: vec![] })), element_tag: None, is_recursive: false }),
         };
-        cx.describe(|| format!("A ::= {} ({}{}..{}{}{})", ["INTEGER", "OCTET STRING", "BIT STRING", "IA5String", "SEQUENCE OF BOOLEAN (size)"][kind], if kind == 0 { "" } else { "SIZE(" }, lo.map_or("MIN".into(), |v| v.to_string()), hi.map_or("MAX".into(), |v| v.to_string()), if ext { ", ..." } else { "" }, if kind == 0 { "" } else { ")" }));
+        cx.describe(|| format!("A ::= {} ({}{}..{}{}{})", ["INTEGER", "OCTET STRING", "BIT STRING", "IA5String", "SEQUENCE OF BOOLEAN (size)", "Temp (type reference)", "INTEGER"][kind], if kind == 0 || kind >= 5 { "" } else { "SIZE(" }, lo.map_or("MIN".into(), |v| v.to_string()), hi.map_or("MAX".into(), |v| v.to_string()), if ext { ", ..." } else { "" }, if kind == 0 || kind >= 5 { "" } else { ")" }));
         let h = Rc::new(RefCell::new(ModuleHeader { name: "M".into(), module_identifier: None, encoding_reference_default: None, tagging_environment: TaggingEnvironment::Automatic, extensibility_environment: ExtensibilityEnvironment::Explicit, imports: vec![], exports: None }));
         let tld = ToplevelDefinition::Type(ToplevelTypeDefinition { comments: String::new(), tag: None, name: "A".into(), ty, parameterization: None, module_header: Some(h) });
         let mut backend = crate::generator::rasn::Rasn::default();
         let generated = match backend.generate_module(vec![tld]) { Ok(m) if m.warnings.is_empty() => m.generated.unwrap_or_default(), _ => { vob!(cx, "C04.generate.constrained_assignment_is_generated", false); return; } };
         let text = match (lo, hi) { (Some(l), Some(h)) if l == h => format!("{l}"), (Some(l), Some(h)) => format!("{l}..={h}"), (Some(l), None) => format!("{l}.."), (None, Some(h)) => format!("..={h}"), _ => String::new() };
-        let kw = if kind == 0 { "value" } else { "size" };
+        let kw = if kind == 0 || kind >= 5 { "value" } else { "size" };
         let want = if ext { format!("{kw} (\"{text}\" , extensible)") } else { format!("{kw} (\"{text}\")") };
         let fixed = (kind == 1 || kind == 2) && !ext && lo.is_some() && lo == hi;
         if fixed {
             let n = lo.unwrap();
             vob!(cx, "C04.generate.fixed_size_strings_become_fixed_types", generated.contains(&format!("{} < {n}", if kind == 1 { "FixedOctetString" } else { "FixedBitString" })));
-        } else if kind != 0 && lo == Some(0) && hi.is_none() && !ext {
+        } else if kind != 0 && kind < 5 && lo == Some(0) && hi.is_none() && !ext {
             // SIZE(0..MAX) is the default and may be left out
             vob!(cx, "C04.generate.assignment_annotation_is_the_constraint_range", generated.contains(&want) || !generated.contains("size ("));
         } else {
@@ -2708,6 +2834,8 @@ pub fn contract_generate_extension_group<C: Ctx>(cx: &mut C) {
         if fields.len() != n_root + 1 + after as usize { return; }
         let gf = &fields[n_root];
         vob!(cx, "C05.generate.group_member_is_an_optional_extension_addition_group", gf.contains("extension_addition_group") && gf.contains(": Option <"));
+        // C02: an extension addition group is absent from version-1 values, so its field is an Option
+        vob!(cx, "C02.generate.group_member_is_an_option", gf.contains(": Option <"));
         let mut plain_ok = true;
         for (i, f) in fields.iter().enumerate() { if i != n_root { plain_ok = plain_ok && !f.contains("extension_addition_group") && (f.contains("extension_addition") == (i > n_root)); } }
         vob!(cx, "C05.generate.only_the_group_is_marked_as_group", plain_ok);
